@@ -20,7 +20,8 @@ import (
 // ---- C06: overload resolution picks the first applicable candidate and leaves no residue -------
 
 type c06Case struct {
-	Kind   string     `json:"kind"`   // func | method | ptrmethod | table
+	Kind   string     `json:"kind"`   // func | method | ptrmethod | table | iface | op | cast
+	Op     string     `json:"op,omitempty"` // kind op: the binary operator (+ - * / % & | << < >)
 	Params [][]string `json:"params"` // per candidate: parameter declarations ("x int", "xs ...int")
 	TParam []string   `json:"tparam"` // per candidate: type parameter list ("" or "[T any]")
 	Args   []string   `json:"args"`
@@ -51,6 +52,12 @@ func (c *c06Case) names() []string {
 			out[k] = fmt.Sprintf("M__%c", c06Sfx[k])
 		case "ptrmethod":
 			out[k] = fmt.Sprintf("P__%c", c06Sfx[k])
+		case "iface":
+			out[k] = fmt.Sprintf("IM__%c", c06Sfx[k])
+		case "op":
+			out[k] = fmt.Sprintf("%s__%c", c06OpNames[c.Op], c06Sfx[k])
+		case "cast":
+			out[k] = fmt.Sprintf("C_Cast__%c", c06Sfx[k])
 		case "table":
 			if k%2 == 0 {
 				out[k] = fmt.Sprintf("Gx%d", k) // explicit name in the XGoo_ table
@@ -64,6 +71,9 @@ func (c *c06Case) names() []string {
 	return out
 }
 
+// c06OpNames: the method a binary operator on a named type resolves to (codebuild.go binaryOps)
+var c06OpNames = map[string]string{"+": "XGo_Add", "-": "XGo_Sub", "*": "XGo_Mul", "/": "XGo_Quo", "%": "XGo_Rem", "&": "XGo_And", "|": "XGo_Or", "<<": "XGo_Lsh", "<": "XGo_LT", ">": "XGo_GT"}
+
 func (c *c06Case) pkgSrc() string {
 	var b strings.Builder
 	b.WriteString("package ovl\n\n")
@@ -71,8 +81,20 @@ func (c *c06Case) pkgSrc() string {
 		b.WriteString("import \"github.com/goplus/gogen/internal/builtin\"\n\nvar _ builtin.XGo_bigint\n\n")
 	}
 	// Never has no value in the argument pool: a candidate with a Never parameter is never applicable
-	b.WriteString("const XGoPackage = true\n\ntype N int\n\ntype T struct{ V int }\n\ntype Never struct{ never int }\n\n")
+	b.WriteString("const XGoPackage = true\n\ntype N int\n\ntype T struct{ V int }\n\ntype Never struct{ never int }\n\ntype C struct{ c int }\n\n")
 	names := c.names()
+	if c.Kind == "iface" {
+		// overloaded methods of an interface type: the family lives in the method set of I
+		for k := range c.Params {
+			fmt.Fprintf(&b, "type R%d struct{ r%d int }\n", k, k)
+		}
+		b.WriteString("type I interface {\n")
+		for k, ps := range c.Params {
+			fmt.Fprintf(&b, "\t%s(%s) R%d\n", names[k], strings.Join(ps, ", "), k)
+		}
+		b.WriteString("}\n")
+		return b.String()
+	}
 	for k := range c.Params {
 		fmt.Fprintf(&b, "type R%d struct{ r%d int }\n", k, k)
 	}
@@ -94,10 +116,17 @@ func (c *c06Case) pkgSrc() string {
 			recv = "(t T) "
 		case "ptrmethod":
 			recv = "(t *T) "
+		case "op":
+			recv = "(t T) "
 		}
 		tp := ""
 		if recv == "" {
 			tp = c.TParam[k]
+		}
+		if c.Kind == "cast" {
+			// overloaded type cast of the named type C: every candidate returns C
+			fmt.Fprintf(&b, "func %s%s(%s) C { return C{%d} }\n", names[k], tp, strings.Join(ps, ", "), k)
+			continue
 		}
 		fmt.Fprintf(&b, "func %s%s%s(%s) R%d { return R%d{} }\n", recv, names[k], tp, strings.Join(ps, ", "), k, k)
 	}
@@ -123,6 +152,7 @@ var (
 	vi8  int8
 	vt   ovl.T
 	vpt  *ovl.T
+	vc   ovl.C
 )
 
 func gid[T any](x T) T { return x }
@@ -131,13 +161,22 @@ func gid[T any](x T) T { return x }
 
 func (c *c06Case) callSrc(callee string) string {
 	var recv string
+	pre := c06Prelude
 	switch c.Kind {
 	case "method", "ptrmethod":
+		recv = "vt." + callee
+	case "iface":
+		pre += "var vif ovl.I\n\n"
+		recv = "vif." + callee
+	case "op":
+		if callee == c.overloadName() { // the overloaded operator itself: vt <op> arg
+			return pre + "func f() {\n\t_ = vt " + c.Op + " " + strings.Join(c.Args, ", ") + "\n}\n"
+		}
 		recv = "vt." + callee
 	default:
 		recv = "ovl." + callee
 	}
-	return c06Prelude + "func f() {\n\t_ = " + recv + "(" + strings.Join(c.Args, ", ") + ")\n}\n"
+	return pre + "func f() {\n\t_ = " + recv + "(" + strings.Join(c.Args, ", ") + ")\n}\n"
 }
 
 func (c *c06Case) overloadName() string {
@@ -148,6 +187,12 @@ func (c *c06Case) overloadName() string {
 		return "P"
 	case "table":
 		return "G"
+	case "iface":
+		return "IM"
+	case "op":
+		return c06OpNames[c.Op]
+	case "cast":
+		return "C" // ovl.C(args): the cast of the named type C
 	}
 	return "F"
 }
@@ -167,19 +212,14 @@ func c06Build(c *c06Case, callee string) (res *drive.Result, emittedCallee, emit
 		return nil, "", "", "", ""
 	}
 	rec := &callRec{}
-	var call *ast.CallExpr
-	ast.Inspect(f, func(n ast.Node) bool {
-		if ce, ok := n.(*ast.CallExpr); ok && call == nil {
-			if fd := enclosingFunc(f, ce); fd == "f" {
-				call = ce
-			}
-		}
-		return true
-	})
+	call := c06RHS(f) // the call (or, for an overloaded operator, the binary expression)
+	if call == nil {
+		return nil, "", "", "", ""
+	}
 	res = drive.Build(fset, []*ast.File{f}, map[string][]byte{"c.go": []byte(src)}, drive.Options{Importer: oracle.NewImporter(), PkgPath: "main", Recorder: rec, XGo: c.XGo,
 		Setup: func(d *drive.Driver) {
 			d.Trace = func(e ast.Expr, el *gogen.Element, ref bool) {
-				if e == ast.Expr(call) && el.Type != nil {
+				if e == call && el.Type != nil {
 					resultType = oracle.TypeKey(el.Type)
 				}
 			}
@@ -191,8 +231,19 @@ func c06Build(c *c06Case, callee string) (res *drive.Result, emittedCallee, emit
 	if err != nil {
 		return res, "?unparsable", "", resultType, ""
 	}
-	ast.Inspect(of, func(n ast.Node) bool {
-		if ce, ok := n.(*ast.CallExpr); ok && emittedCallee == "" && enclosingFunc(of, ce) == "f" {
+	orhs := c06RHS(of)
+	for {
+		pe, ok := orhs.(*ast.ParenExpr)
+		if !ok {
+			break
+		}
+		orhs = pe.X
+	}
+	if _, ok := orhs.(*ast.CallExpr); !ok && orhs != nil {
+		return res, "?not-a-call:" + types.ExprString(orhs), "", resultType, ""
+	}
+	ast.Inspect(orhs, func(n ast.Node) bool {
+		if ce, ok := n.(*ast.CallExpr); ok && emittedCallee == "" {
 			if sel, ok := ce.Fun.(*ast.SelectorExpr); ok {
 				emittedCallee = sel.Sel.Name
 			} else if ix, ok := ce.Fun.(*ast.IndexExpr); ok {
@@ -201,7 +252,15 @@ func c06Build(c *c06Case, callee string) (res *drive.Result, emittedCallee, emit
 				}
 			}
 			var as []string
-			for _, a := range ce.Args {
+			for i, a := range ce.Args {
+				if i == 0 && c.Kind == "op" && c06IsMethodExpr(ce.Fun) {
+					// an overloaded operator is emitted as the method expression (ovl.T).XGo_Add__k(vt, y):
+					// the first argument is the receiver, i.e. the left operand
+					if types.ExprString(a) != "vt" {
+						as = append(as, "?receiver:"+types.ExprString(a))
+					}
+					continue
+				}
 				as = append(as, types.ExprString(a))
 			}
 			emittedArgs = strings.Join(as, " , ")
@@ -217,6 +276,39 @@ func c06Build(c *c06Case, callee string) (res *drive.Result, emittedCallee, emit
 		}
 	}
 	return
+}
+
+// c06IsMethodExpr: fun is T.m / (T).m / pkg.T.m, not v.m for the prelude variable vt
+func c06IsMethodExpr(fun ast.Expr) bool {
+	sel, ok := fun.(*ast.SelectorExpr)
+	if !ok {
+		return false
+	}
+	x := sel.X
+	for {
+		pe, ok := x.(*ast.ParenExpr)
+		if !ok {
+			break
+		}
+		x = pe.X
+	}
+	if id, ok := x.(*ast.Ident); ok {
+		return id.Name != "vt"
+	}
+	_, isSel := x.(*ast.SelectorExpr)
+	return isSel
+}
+
+// c06RHS returns the right-hand side of the single assignment `_ = X` in func f.
+func c06RHS(f *ast.File) ast.Expr {
+	for _, d := range f.Decls {
+		if fd, ok := d.(*ast.FuncDecl); ok && fd.Name.Name == "f" && fd.Body != nil && len(fd.Body.List) == 1 {
+			if as, ok := fd.Body.List[0].(*ast.AssignStmt); ok && len(as.Rhs) == 1 {
+				return as.Rhs[0]
+			}
+		}
+	}
+	return nil
 }
 
 func enclosingFunc(f *ast.File, n ast.Node) string {
@@ -272,6 +364,10 @@ func c06Eval(c *c06Case) (sig, msg string, expected int, feats []string) {
 			}
 		}
 	}
+	if expected < 0 && c.Kind == "cast" && len(c.Args) == 0 {
+		// C() without a zero-parameter cast candidate is the documented zero-value form T() (decided by C14)
+		return "", "", -3, []string{"cast-zero-value-form"}
+	}
 	if expected < 0 {
 		feats = append(feats, "none-applicable")
 		if res.Accepted() {
@@ -296,6 +392,9 @@ func c06Eval(c *c06Case) (sig, msg string, expected int, feats []string) {
 		return fmt.Sprintf("overload-wrong-candidate|%s|chose=%s", shape, rel), fmt.Sprintf("arguments (%s): the first applicable candidate is %s, the builder emitted a call to %s", strings.Join(c.Args, ", "), names[expected], callee), expected, feats
 	}
 	wantType := fmt.Sprintf("%s.R%d", c06PkgPath, expected)
+	if c.Kind == "cast" {
+		wantType = c06PkgPath + ".C"
+	}
 	if rtype != wantType {
 		return "overload-result-type|" + shape, fmt.Sprintf("chosen candidate %s returns %s, the builder reports %s", callee, wantType, rtype), expected, feats
 	}
@@ -316,7 +415,7 @@ func c06Eval(c *c06Case) (sig, msg string, expected int, feats []string) {
 
 func TestC06(t *testing.T) {
 	r := hx.Start(t, "C06")
-	r.SetRule("generated overload families in a synthetic XGo package: 1-6 candidates as package functions by __k suffix, as an XGoo_ table with explicit names and empty slots, or as methods with value / pointer receivers; parameter lists of 0-3 parameters from 15 types (numeric kinds incl. int8/uint8/float32, named int, any, slices, maps, function types, pointers, error), variadic tails (...int, ...any) and generic candidates ([T any], [T ~int|~float64]); argument lists of 0-3 arguments from typed values, untyped constants (incl. 300, -1, 1<<40, rune, float), nil, function literals, a generic function value, typed constants. Model: candidate k is applicable iff go/types accepts an explicit call of it with the same arguments; expected = least applicable k. Checks: emitted callee, Recorder.Call object and reported result type are candidate expected's; none applicable => rejected; emitted argument expressions equal those of a direct call of the chosen candidate (no residue); the emitted call type-checks. Non-trivial: expected >= 1 (earlier candidates were tried and rejected) or none applicable; distinct by (family, arguments).")
+	r.SetRule("generated overload families in a synthetic XGo package: 1-6 (one case in eight: 11-14) candidates as package functions by __k suffix, as an XGoo_ table with explicit names and empty slots, as methods with value / pointer receivers, as methods of an interface type, as overloaded binary operators of a named type (XGo_Add__k ..., written vt + y), or as overloaded type casts of a named type (C_Cast__k, written ovl.C(args); C() without a zero-parameter candidate is the zero-value form and left to C14); parameter lists of 0-3 parameters from 15 types (numeric kinds incl. int8/uint8/float32, named int, any, slices, maps, function types, pointers, error), variadic tails (...int, ...any) and generic candidates ([T any], [T ~int|~float64]); argument lists of 0-3 arguments from typed values, untyped constants (incl. 300, -1, 1<<40, rune, float), nil, function literals, a generic function value, typed constants. Model: candidate k is applicable iff go/types accepts an explicit call of it with the same arguments; expected = least applicable k. Checks: emitted callee, Recorder.Call object and reported result type are candidate expected's; none applicable => rejected; emitted argument expressions equal those of a direct call of the chosen candidate (no residue); the emitted call type-checks. Non-trivial: expected >= 1 (earlier candidates were tried and rejected) or none applicable; distinct by (family, arguments).")
 	r.Assume("go/types decides applicability of each concrete candidate", "suffix families are contiguous from 0 (documented precondition of XGo packages)")
 	defer r.Done()
 	eval := func(c *c06Case) (string, string) {
@@ -352,16 +451,22 @@ func TestC06(t *testing.T) {
 		}
 	}
 	r.Check(t, "overloads", r.N(4000, 100000), func(t *rapid.T) {
-		c := &c06Case{Kind: pick(t, "kind", []string{"func", "func", "table", "method", "ptrmethod"})}
+		c := &c06Case{Kind: pick(t, "kind", []string{"func", "func", "table", "method", "ptrmethod", "iface", "op", "cast"})}
+		if c.Kind == "op" {
+			c.Op = pick(t, "op", []string{"+", "-", "*", "/", "%", "&", "|", "<<", "<", ">"})
+		}
 		n := rapid.IntRange(1, 6).Draw(t, "ncand")
 		if rapid.IntRange(0, 7).Draw(t, "bigfamily") == 0 {
 			n = rapid.IntRange(11, 14).Draw(t, "ncandbig") // reaches the letters of the suffix alphabet
 		}
 		for k := 0; k < n; k++ {
 			np := rapid.IntRange(0, 3).Draw(t, "nparams")
+			if c.Kind == "op" {
+				np = 1 // a binary operator method takes the right operand
+			}
 			var ps []string
 			tp := ""
-			if k < n-1 && rapid.IntRange(0, 9).Draw(t, "bigparam") == 0 {
+			if k < n-1 && c.Kind != "op" && rapid.IntRange(0, 9).Draw(t, "bigparam") == 0 {
 				// A candidate that is tried, rewrites an untyped constant argument for its big-number
 				// parameter, and then fails on its Never parameter: nothing of it may remain.
 				ps = append(ps, "p0 builtin.XGo_bigint")
@@ -374,13 +479,13 @@ func TestC06(t *testing.T) {
 				c.XGo = true
 				continue
 			}
-			g := c.Kind != "method" && c.Kind != "ptrmethod" && rapid.IntRange(0, 5).Draw(t, "generic") == 0
+			g := (c.Kind == "func" || c.Kind == "table" || c.Kind == "cast") && rapid.IntRange(0, 5).Draw(t, "generic") == 0
 			for i := 0; i < np; i++ {
 				ty := pick(t, "ptype", c06ParamTypes)
 				if g && i == 0 {
 					ty = "T"
 				}
-				if i == np-1 && rapid.IntRange(0, 4).Draw(t, "variadic") == 0 {
+				if i == np-1 && c.Kind != "op" && rapid.IntRange(0, 4).Draw(t, "variadic") == 0 {
 					ty = "..." + pick(t, "vtype", []string{"int", "any", "string", "float64"})
 				}
 				ps = append(ps, fmt.Sprintf("p%d %s", i, ty))
@@ -411,6 +516,9 @@ func TestC06(t *testing.T) {
 			}
 		} else {
 			na := rapid.IntRange(0, 3).Draw(t, "nargs")
+			if c.Kind == "op" {
+				na = 1
+			}
 			for i := 0; i < na; i++ {
 				c.Args = append(c.Args, pick(t, "arg", c06Args))
 			}
@@ -419,6 +527,10 @@ func TestC06(t *testing.T) {
 		r.Eval()
 		if expected == -2 {
 			r.Class("generator_unsound")
+			return
+		}
+		if expected == -3 {
+			r.Class(feats...)
 			return
 		}
 		r.Class("kind:" + c.Kind)
